@@ -62,6 +62,7 @@ Explain(e) ==
      [] e.ev = "Gen" -> ExplainGen(e)
      [] e.ev = "Check" -> ExplainCheck(e)
      [] e.ev = "Auts" -> ExplainAuts(e)
+     [] e.ev = "Held" -> HeldVerdict(e)
      [] OTHER -> No("no action of the specification matches this event")
 
 Init == l = 1 /\ bad = 0
